@@ -523,6 +523,44 @@ def run(chk):
         return True, "", [m.loc, e.loc]
     chk.ob("C01.S2.from_filter:Wrapping::wrap", "FromFilter::wrap emits to the output only on the accept edge, same event", from_filter)
 
+    def one_conversion_for_filter_and_output():
+        """`ToEvent::to_event` is user code and need not be pure.  Where a wrapping looks at the event twice - FromFilter::wrap asks the filter and then
+        emits - both looks must be at *one* conversion: either the wrapping snapshots (`let evt = evt.to_event()`) before its first use, or
+        every in-workspace caller of Wrapping::wrap hands it an already converted event (Wrap::emit passes `evt.to_event()`).  Otherwise the
+        filter judges one conversion and the destination receives another."""
+        b = P.impl_method(WRAPPING, "emit_core::emitter::wrapping::FromFilter<F>", "wrap")
+        uses = [c for c in b.calls(normal_only=True) if (c.callee.get("trait") in (FILTER, EMITTER)) and c.callee.get("name") in ("matches", "emit")]
+        raw = []
+        for c in uses:
+            o = b.origin(c.args[1])
+            x, snap = o, False
+            d = 0
+            while d < 10:
+                d += 1
+                if x[0] in ("ref", "deref", "copy", "field"):
+                    x = x[1]
+                    continue
+                if x[0] == "call" and x[1].callee.get("name") in ("to_event", "by_ref", "erase") and x[1].args:
+                    snap = snap or x[1].callee.get("name") == "to_event"
+                    x = b.origin(x[1].args[0])
+                    continue
+                break
+            if not snap:
+                raw.append(c)
+        if len(raw) < 2:
+            return True, "", ["FromFilter::wrap converts once itself"]
+        w = P.impl_method(EMITTER, "emit_core::emitter::Wrap<E, W>", "emit")
+        ws = w.calls_to(trait=WRAPPING, name="wrap")
+        if len(ws) != 1:
+            raise mir.AnchorMissing("Wrapping::wrap call in Wrap::emit")
+        o = w.origin(ws[0].args[2])
+        if not (o[0] == "call" and o[1].callee.get("name") == "to_event"):
+            return False, ("Wrap::emit hands the wrapping %s, not one converted event, and FromFilter::wrap converts what it is given twice (once for the "
+                           "filter at %s, once for the output at %s): with a ToEvent whose conversion is not pure the destination receives an event "
+                           "its filter never saw" % (o_str(o), raw[0].loc, raw[1].loc)), [], ws[0].loc
+        return True, "", [ws[0].loc, raw[0].loc, raw[1].loc]
+    chk.ob("C01.S2.wrap:one-conversion", "the filter and the output of a filtering wrapping see one and the same conversion of the caller's value", one_conversion_for_filter_and_output)
+
     # leaf callables: fn(..) and FromFn<F> for Emitter / Filter / Wrapping
     def leaf(b, want_ret):
         def f():
